@@ -7,7 +7,7 @@
 use std::{
     collections::HashMap,
     hash::{BuildHasher, Hash},
-    time::{Duration, Instant},
+    time::{Duration, Instant, SystemTime},
 };
 
 #[cfg(feature = "serde1")]
@@ -24,6 +24,37 @@ impl TimeUntil for Instant {
     fn time_until(&self) -> Duration {
         self.duration_since(Instant::now())
     }
+}
+
+/// Renders a deadline as an RFC 3339 wall-clock timestamp for tracing span fields.
+///
+/// Rendering never fails: a deadline that cannot be expressed as such a timestamp (beyond year
+/// 9999, or outside the range of [`SystemTime`]) is rendered as a placeholder. A deadline can be
+/// chosen by a remote peer, so it must not be able to make a `Display` impl return an error.
+pub(crate) fn format_deadline(deadline: &Instant) -> impl std::fmt::Display {
+    /// The first second that RFC 3339 (four-digit years) cannot represent: 10000-01-01T00:00:00Z.
+    const END_OF_YEAR_9999: u64 = 253_402_300_800;
+
+    struct DeadlineDisplay(Option<SystemTime>);
+
+    impl std::fmt::Display for DeadlineDisplay {
+        fn fmt(&self, f: &mut std::fmt::Formatter<'_>) -> std::fmt::Result {
+            match self.0 {
+                Some(time)
+                    if time
+                        .duration_since(SystemTime::UNIX_EPOCH)
+                        .map_or(false, |since_epoch| {
+                            since_epoch.as_secs() < END_OF_YEAR_9999
+                        }) =>
+                {
+                    humantime::format_rfc3339(time).fmt(f)
+                }
+                _ => f.write_str("<out of range>"),
+            }
+        }
+    }
+
+    DeadlineDisplay(SystemTime::now().checked_add(deadline.time_until()))
 }
 
 /// Collection compaction; configurable `shrink_to_fit`.
